@@ -292,6 +292,8 @@ class Ctx:
         self.disagreements = []        # dict(stream, input, model, impl)
         self.failures = []             # dict(signature, input, observed, expected, oracle, ...)
         self.notes = []
+        self.advisory = []             # disagreements of advisory streams (translator validation): never a violation
+        self.src_tie_lost = set()      # source-tie groups whose translation or equality proof no longer checks
         self.t0 = time.time()
 
     # --- budget helper
@@ -313,13 +315,17 @@ class Ctx:
         if sample is not None and len(st['samples']) < 4:
             st['samples'].append(sample)
 
-    def compare(self, stream, driver, cases):
+    def compare(self, stream, driver, cases, advisory=False):
         """cases: list of dict(line=<request>, impl=<canonical impl output>, input=<jsonable>, key=, bucket=, nontrivial=)
-        Runs the Lean driver on all lines and records disagreements."""
+        Runs the Lean driver on all lines and records disagreements.  `advisory` streams (validation of the
+        AST translator, DESIGN §9.6) record theirs separately: they enlarge the search but are never a violation."""
         lines = [c['line'] for c in cases]
         try:
             outs = run_driver(driver, lines)
         except (DriverError, subprocess.TimeoutExpired) as e:
+            if advisory:
+                self.advisory.append({'stream': stream, 'model': f'driver failure: {e}'[:800]})
+                return
             self.disagreements.append({'stream': stream, 'input': None, 'model': f'driver failure: {e}'[:1500],
                                        'impl': None})
             for c in cases:
@@ -333,7 +339,12 @@ class Ctx:
                     o = f'uncanonicalisable model output: {o[:200]} ({e})'
             self.count(stream, key=c.get('key', c['line']), nontrivial=c.get('nontrivial', True),
                        bucket=c.get('bucket'), sample={'request': c['line'][:400], 'impl': c['impl'][:300], 'model': o[:300]})
-            if o != c['impl']:
+            if o != c['impl'] and advisory:
+                if len(self.advisory) < 50:
+                    self.advisory.append({'stream': stream, 'input': c.get('input', c['line']), 'request': c['line'],
+                                          'model': o, 'impl': c['impl']})
+                self.suspects.append((stream, c.get('input')))
+            elif o != c['impl']:
                 if len(self.disagreements) < 200:
                     self.disagreements.append({'stream': stream, 'input': c.get('input', c['line']), 'request': c['line'],
                                                'model': o, 'impl': c['impl']})
